@@ -140,7 +140,10 @@ def build(ctx):
     if not ctx.quick:
         singles = [b for b in BODIES if len(b) == 1]
         bodies = bodies + [a + b for a in singles for b in singles if a != b]
-    ctxs = [("", "", False), ("P(n) | 5\n", "Q(n) | 6\n", False), ("float x = 0.5\n", "", True), ("", "R(n, A[0]) | [1, 0]\n", True)]
+    ctxs = [("", "", False), ("P(n) | 5\n", "Q(n) | 6\n", False), ("float x = 0.5\n", "", True), ("", "R(n, A[0]) | [1, 0]\n", True),
+            # an earlier loop, then a declaration / re-declaration, then the loop, then a statement that uses the variable
+            ("for int j in [4]\n    Y(j) | 0\nfloat w = 2.5\n", "R(w) | 1\n", False),
+            ("float w = 1.0\nfor int j in 0:2\n    Y(j, w) | j\nfloat w = 5.0\n", "R(w, n) | 1\n", True)]
     for (t, h, vals, kind), body in itertools.product(hs, bodies):
         if not usable(t, body):
             continue
@@ -171,8 +174,8 @@ def run(ctx):
             Vs.add(r[0], {"case": repr(c)}, r[1])
     cov = {"evaluations": len(cases), "distinct_nontrivial": len(cases) - empties,
            "rule": "every loop header (int/float ranges a:b, a:b:c over a,b in 0..3 (thorough 0..4), c in 1..3; value lists of int/float/bool/str values and expressions in three bracket styles) x every body "
-                   "(loop variable in argument, keyword, list element, mode, second mode, array index, arithmetic, unused; 1-2 (thorough 3) statements) x 4 contexts (nothing; statement before and after; "
-                   "declaration before + a second loop reusing the variable; statement after + second loop); plus use of the variable after every loop and wrong-type lists. "
+                   "(loop variable in argument, keyword, list element, mode, second mode, array index, arithmetic, unused; 1-2 (thorough 3) statements) x 6 contexts (nothing; statement before and after; "
+                   "declaration before + a second loop reusing the variable; statement after + second loop; an earlier loop and a declaration before, a use of it after; a re-declaration between two loops); plus use of the variable after every loop and wrong-type lists. "
                    "non-trivial = non-empty loop or refusal case (empty ranges counted separately: %d); distinct by construction" % empties,
            "samples": [repr(c) for c in common.sample(cases, 5)], "exhaustive": True, "by_family": dict(fam), "empty_range_cases": empties}
     return {"coverage": cov, "violations": Vs.records(),
